@@ -59,7 +59,12 @@ def _keys(prop, root, overlay):
     from sa.run import run_rules
 
     ctx = Ctx(root, overlay=overlay)
-    reps = run_rules(prop, ctx)
+    reps = run_rules(prop, ctx, raise_on_error=False)
+    found = [(f.rule, f.file, f.function, f.construct) for r in reps for f in r.findings]
+    if ctx.analysis_errors and not found and overlay is not None:
+        raise AnalysisError("; ".join(ctx.analysis_errors))
+    if ctx.analysis_errors and overlay is None:
+        raise AnalysisError("; ".join(ctx.analysis_errors))
     return [(f.rule, f.file, f.function, f.construct) for r in reps for f in r.findings]
 
 
